@@ -217,7 +217,12 @@ pub fn make_doc(profile: Profile, id: &str, ver: u64) -> Document {
   if is_big(ver) {
     // one long document in three is very long (20-150 KiB of stored text, mostly
     // beyond 64 KiB)
-    let extra = (300 + (nextr() % 6) as usize * 400) * if ver % 3 == 0 { 12 } else { 1 };
+    let extra = if ver % 97 == 0 {
+      // (rarely: a giant document, well over 1 MiB)
+      230_000
+    } else {
+      (300 + (nextr() % 6) as usize * 400) * if ver % 3 == 0 { 12 } else { 1 }
+    };
     let span = 50 + (nextr() % 4000);
     for i in 0..extra {
       words.push(format!("w{}", (nextr() % span) + (i as u64 % 7)));
